@@ -106,6 +106,39 @@ pub fn replay(path: &str) -> i32 {
             }
             0
         }
+        "determinism-history" => {
+            // a fresh process compiles the projects of the history one after the other; another one compiles only the last
+            let idxs: Vec<String> = r["indices"].as_array().map(|a| a.iter().filter_map(|i| i.as_u64()).map(|i| i.to_string()).collect()).unwrap_or_default();
+            let Some(last) = idxs.last().cloned() else {
+                println!("{}", serde_json::to_string_pretty(&r).unwrap());
+                return 0;
+            };
+            let exe = std::env::current_exe().unwrap();
+            let run = |args: &[String]| -> String {
+                let mut a = vec!["det-seq".to_string()];
+                a.extend(args.iter().cloned());
+                std::process::Command::new(&exe).args(&a).output().map(|o| String::from_utf8_lossy(&o.stdout).trim().to_string()).unwrap_or_default()
+            };
+            let (warm, fresh) = (run(&idxs), run(&[last]));
+            println!("history {:?} ({}): digest of the last project {} ; compiled alone {}", idxs, r["projects"], warm, fresh);
+            if warm != fresh {
+                println!("REPRODUCED: what the process compiled before changes what it produces");
+                return 1;
+            }
+            0
+        }
+        "cli-rebuild" => {
+            // the whole history again through the goml binary (GOMLMC_CLI is set by ./check for C04 / C14 / C15)
+            let case = serde_json::json!({"kind": "rebuild", "graph": r["graph"], "edit": r["edit"], "variant": r["variant"]});
+            let Some(fam) = crate::families::by_name("cli") else { return 2 };
+            let mut ctx = crate::drive::Ctx { scratch: Scratch::new("replay-cli"), tier: crate::drive::Tier::Quick };
+            let rep = fam.run(&case, &mut ctx);
+            println!("tags: {:?}", rep.tags);
+            for f in &rep.findings {
+                println!("REPRODUCED: {} {} {}\n  {}", f.property, f.class, f.site, f.detail);
+            }
+            if rep.findings.is_empty() { 0 } else { 1 }
+        }
         "project" | "determinism" => {
             let files: Vec<(String, String)> = r["files"].as_array().map(|a| a.iter().map(|f| (f[0].as_str().unwrap_or("").to_string(), f[1].as_str().unwrap_or("").to_string())).collect()).unwrap_or_default();
             let proj = crate::projects::Project { name: "replay".into(), files, expected_stdout: None };
